@@ -183,7 +183,8 @@ def check_C01(c):
         node, meta = gen.random_tree(c.rng, cfg)
         jn = gen.node_to_json(node)
         for ind, cp in c.rng.sample([(i_, c_) for i_ in INDENTS for c_ in (False, True)], _q(c, 3, 6)):
-            jobs.append(('tr_format', dict(node=jn, meta=meta, indent=ind, compact=cp, via_codec=c.rng.random() < 0.2)))
+            jobs.append(('tr_format', dict(node=jn, meta=meta, indent=ind, compact=cp, via_codec=c.rng.random() < 0.2,
+                                           shape='list' if len(jobs) % 13 == 5 else None)))
     for d in _q(c, [60], [100, 200]):
         jobs.append(('tr_format', dict(node=gen.node_to_json(gen.deep_tree(c.rng, d)), meta={}, indent=-1, compact=False)))
     # fixed-point clause on accepted input strings
@@ -236,11 +237,20 @@ def check_C18(c):
     for ln, cnt in _q(c, [(5, 4000), (6, 3000)], [(6, 100000), (7, 50000), (8, 30000)]):
         for s in gen.sample_strings(c.rng, aa, ln, cnt):
             jobs.append(('tr_eval', dict(s=s)))
+    # "every atom text": also texts with the characters string formatting gives a meaning to (the documented error is built
+    # from the text) - on the error paths (unbalanced quote, JSON container) and off them
+    for s in ['"50%', '%s"', '"%d', '"%(x)s', '%"', '"{}', '{0}"', '"{x', '["%"]', '["%s"]', '[1,"%d"]', '["{}"]', '["{0}",2]', '[true]',
+              '[null]', '[false,1]', '%', '%s', '%d%', '{', '}', '{0}', '"%s"', '"{}"', '"100%"', '%%', '"%%']:
+        jobs.append(('tr_eval', dict(s=s)))
+    fa = aa + list('%sd{}')
+    for ln, cnt in _q(c, [(3, 1500), (5, 1500)], [(4, 40000), (6, 40000)]):
+        for s in gen.sample_strings(c.rng, fa, ln, cnt):
+            jobs.append(('tr_eval', dict(s=s)))
     traces = pmake(jobs, optimized_share=0.02)     # the module asserts on its argument types: results may not depend on that
     c.judge('J_Syntax', traces, 'const', nontrivial=lambda t: len(t['s']) >= 1)
     c.rule = ('quote: every string up to length %d over %d characters (quotes, backslash, controls, line separators, delimiters, '
               'non-ASCII) plus random strings up to 40 characters and numbers/None; evaluate/type: every atom text up to length %d '
-              'over 0 1 - + . e E " \\ a plus JSON literals and containers; distinct by input' % (_q(c, 3, 4), len(qa), _q(c, 4, 5)))
+              'over 0 1 - + . e E " \\ a plus JSON literals and containers, plus texts with %% s d { } (error paths included); distinct by input' % (_q(c, 3, 4), len(qa), _q(c, 4, 5)))
     c.assumptions += ['numeric values are not compared (TLC has no floats): kinds and types only',
                       'the value of evaluate(quote(s)) is compared with s as strings by TLC']
 
@@ -301,11 +311,12 @@ def check_C19(c):
         for ind in (True, False):
             v = _variants([tuple(t) for t in ts]) if len(ts) <= 4 else []
             v = (v if ind else v[:3]) + (_mixed_variants(c, [tuple(t) for t in ts], 3) if len(ts) >= 2 else [])
-            jobs.append(('tr_triples', dict(ts=ts, indent=ind, variants=v)))
+            jobs.append(('tr_triples', dict(ts=ts, indent=ind, variants=v, via=('module', 'module', 'codec', 'module', 'codec-amr')[len(jobs) % 5])))
     traces = pmake(jobs, optimized_share=0.02)
     c.judge('J_Syntax', traces, 'triples', nontrivial=lambda t: len(t['ts']) >= 2 or any(x[2].startswith('"') for x in t['ts']))
     c.rule = ('triple lists of every decodable corpus graph and random lists (targets: symbols, numerals, quoted strings with '
-              'blanks, commas, parentheses, carets, escapes) x both line styles x the 12 documented spacing variants; '
+              'blanks, commas, parentheses, carets, escapes) x both line styles x the 12 documented spacing variants, through the '
+              'module-level functions (3 of 5) or the methods of a codec (default / AMR model); '
               'non-trivial = two or more triples or a quoted target; distinct by input')
     c.assumptions += ['sources, roles and symbol targets containing a comma, and the bare symbol ^, are outside the notation (TripleSafe)']
 
